@@ -136,6 +136,11 @@ def vtag(kind, v):
 
 
 def cases(tier, seed):
+    from .. import produced
+    return _cases(tier, seed) + produced.case_list()
+
+
+def _cases(tier, seed):
     out = []
     n = len(space.U0())
     for i in range(n):
@@ -160,6 +165,9 @@ def cases(tier, seed):
 
 
 def run_case(case, R):
+    if case.get("k") == "produced":
+        from .. import produced
+        return produced.run(R, ID, case["i0"], case["i1"])
     k = case["k"]
     names = ("q0", "q1")
     vals = values()
